@@ -27,7 +27,7 @@ func (e *engine) newFnCtx(fn *ssa.Function, blk *block, name string) *fnCtx {
 		ifaces: map[string]*types.Interface{}, heapSort: map[string]string{}, boxes: map[string]string{},
 		params: map[string]Val{}, closures: map[string]*closureInfo{}, prov: map[string]string{}, siteN: map[string]int{},
 		trusted: map[string]bool{}, anchorsHit: map[*clause]int{}, loopsOf: map[*ssa.BasicBlock]int{}, theories: map[string]bool{},
-		rangeOf: map[*ssa.Range]*rangeInfo{}, selIdx: map[*ssa.Select]string{}, sitePos: map[string][]token.Pos{}, linearCells: map[*ssa.Alloc]bool{}, allocFacts: map[string]bool{}, freshRefs: map[string]bool{}, frozenTag: map[string]*types.Map{}, frozenNow: map[string]bool{}, modsOf: map[*ssa.BasicBlock]modSet{},
+		rangeOf: map[*ssa.Range]*rangeInfo{}, selIdx: map[*ssa.Select]string{}, sitePos: map[string][]token.Pos{}, linearCells: map[*ssa.Alloc]bool{}, allocFacts: map[string]bool{}, callOf: map[string]string{}, freshRefs: map[string]bool{}, frozenTag: map[string]*types.Map{}, frozenNow: map[string]bool{}, modsOf: map[*ssa.BasicBlock]modSet{},
 	}
 	return fc
 }
@@ -552,6 +552,25 @@ func (fc *fnCtx) heapVarsOfModifies(lv, callee string) []string {
 	if blk == nil {
 		blk = fc.e.db.ifaces[callee]
 	}
+	for _, k := range []string{"sent", "rcvd"} {
+		if strings.HasPrefix(lv, k+"(") {
+			// all sequence variables of that kind (element sort unknown statically)
+			var all []string
+			for hv := range fc.heapSort {
+				if strings.HasPrefix(hv, "|ch!"+k+"!") {
+					all = append(all, hv)
+				}
+			}
+			sort.Strings(all)
+			return all
+		}
+	}
+	if strings.HasPrefix(lv, "closed(") {
+		return []string{"ch!closed"}
+	}
+	if strings.HasPrefix(lv, "full(") {
+		return []string{"ch!full"}
+	}
 	// find the Go types: the clause is  <param>.<field>  or <param>.<field>[]
 	isMap := strings.HasSuffix(lv, "[]")
 	src := strings.TrimSuffix(lv, "[]")
@@ -641,6 +660,9 @@ func (fc *fnCtx) frameAllowed() map[string][]string {
 	ev := &evalCtx{cur: fc.entry, old: fc.entry, bind: fc.params}
 	for _, lvt := range fc.blk.modifies {
 		lv := fc.evalLvalue(lvt, ev)
+		if lv.chKind != "" {
+			continue
+		}
 		if lv.mtype != nil {
 			d, v, _, _ := fc.mapVars(lv.mtype)
 			allowed[d] = append(allowed[d], lv.mref)
